@@ -199,6 +199,17 @@ def check(ctx):
     ctx.ob("ALG.scan.carry-dtype", cr, "the initial carry is np.full_like(x._meta, ident, m.dtype): the dtype of the scanned blocks, not of the input", ok, "" if ok else "the carry has the input dtype: with an explicit dtype every block after the first is promoted while the array declares the requested dtype")
     ok = any(unparse(r.value) == "handle_out(out, result)" for r in returns(cr)) and bool(find("result = Array(graph, name, x.chunks, m.dtype, meta=x._meta)", cr))
     ctx.ob("ALG.scan.declared-dtype", cr, "the result declares m.dtype and x.chunks", ok)
+    # ---------------- moment_combine: deviation of each block mean FROM the overall mean (sign matters for odd orders)
+    mc = mod.func("moment_combine")
+    its = find("inner_term = M_v", mc)
+    ok = len(its) == 2 and sorted(unparse(b["M_v"]) for _, b in its) == sorted(["np.abs(divide(totals, ns) - mu)", "divide(totals, ns, dtype=dtype) - mu"])
+    ctx.ob("ALG.moment.deviation-sign", mc, "inner_term = (block means) - (overall mean) in both branches", ok, "" if ok else "the deviation is taken with the opposite sign: even central moments are unchanged but every odd-order term flips, so moment(order>=3) is wrong when blocks are combined")
+    # ---------------- arg-extrema on all-NaN slices: NaN is replaced by the identity of the extremum
+    for fn, ident_ in (("_nanargmin", "np.inf"), ("_nanargmax", "-np.inf")):
+        f_ = mod.func(fn)
+        wh = [c for c in calls(f_, "where") if unparse(c.func) == "np.where"]
+        ok = len(wh) == 1 and unparse(wh[0].args[0]) == "np.isnan(x)" and unparse(wh[0].args[1]) == ident_ and unparse(wh[0].args[2]) == "x"
+        ctx.ob("ALG.nanarg-identity", f_, f"{fn}: NaNs are replaced by {ident_} (never selected unless everything is NaN)", ok, "" if ok else f"NaN is replaced by {unparse(wh[0].args[1]) if wh else None}: the NaN position wins the extremum")
 
 
 VARIANTS = [
